@@ -69,6 +69,7 @@ void h_regfree(regex_t *preg);
 int h_pthread_create(pthread_t *th, const pthread_attr_t *attr, void *(*fn)(void *), void *arg);
 int h_cond_timedwait(pthread_cond_t *c, pthread_mutex_t *m, const struct timespec *t);
 void h_exit(int status, const char *fn) __attribute__((noreturn));
+int h_execlp(const char *file, const char *arg0, ...);
 int h_mutex_lock(pthread_mutex_t *m, const char *expr, const char *fn);
 int h_mutex_unlock(pthread_mutex_t *m, const char *expr, const char *fn);
 
@@ -88,6 +89,8 @@ int h_mutex_unlock(pthread_mutex_t *m, const char *expr, const char *fn);
 #define regfree(p) h_regfree(p)
 /* deliberate termination (debugx): reported as the op's outcome, then the process ends */
 #define exit(s) h_exit((s), __func__)
+/* the external lookup command is never really started: its argument vector is recorded (C20) */
+#define execlp(...) h_execlp(__VA_ARGS__)
 /* lock-order recording (C17): the expression text names the lock class */
 #define pthread_mutex_lock(m) h_mutex_lock((m), #m, __func__)
 #define pthread_mutex_unlock(m) h_mutex_unlock((m), #m, __func__)
